@@ -17,6 +17,7 @@ func init() {
 		Explanation: "(1) for every (version the sink believes, version the request is written at) pair that can occur - equal versions; believed v13 but written v11/v12 because produceMax is lowered; believed unknown (-1) and written at any version - the estimate is at least the written bytes at the request level (baseProduceRequestLength vs request header + fixed request fields + tag sections), per new topic and per added partition, decided at minimal uvarint widths and for the coefficient of every length symbol; tryAddBatch refuses when wireLength+estimate exceeds wireLengthLimit before adding, and createReq starts from baseProduceRequestLength with limit cfg.maxBrokerWriteBytes; " +
 			"(2) the per-record estimate (calculateRecordNumbers) has exactly the terms promisedRec.appendTo writes, and the fixed batch overhead constant equals the fixed fields seqRecBatch.appendTo writes; " +
 			"(3) appendRecord is called only from tryBuffer, after the `frozen || newBatchLength > maxBatchBytes` refusal; tryAddBatch freezes a batch before adding it to a request; recBuf.maxRecordBatchBytes comes from maxRecordBatchBytesForTopic, which is the minimum of the configured batch limit and the write limit minus the single-partition overhead; " +
+			"(5) header consistency: maxTimestampDelta is a running maximum and firstTimestamp comes from the first record only (appendRecord is their only writer), the first record's delta is 0, appendTo writes lastOffsetDelta = len(records)-1, firstTimestamp, firstTimestamp+maxTimestampDelta, the producer id/epoch/sequence it was given (sequence 0 only without idempotence), the record count, and each record with its index as offset delta and its stored length/timestamp delta; " +
 			"(4) in appendTo the CRC is the last write into the batch, the length/attribute fields are re-patched only inside the `compressed is shorter` arm (each by the savings), and the flexible defer rebuilds dst as new-prefix + batch.",
 		NotDecided:  "byte-exact decodability of the written request; that appendTo writes exactly wireLength bytes for the record section beyond the term-parity of clause 2; uvarint prefixes wider than one byte (e.g. the 2 MiB batch edge when the version is unknown).",
 		Assumptions: []string{"the kmsg request header is 4+2+2+4 bytes, a non-compact nullable client id and, for flexible requests, one tag byte (cross-checked against pkg/kmsg RequestFormatter.AppendRequest in this tree)"},
@@ -904,6 +905,119 @@ func runC18(c *Ctx) {
 	c18records(c, m)
 	c18batchLimit(c, m)
 	c18appendTo(c, m)
+	c18header(c, m)
+}
+
+// c18header: the batch header fields are consistent with the records.
+func c18header(c *Ctx, m *Module) {
+	rule := "batch-header-consistent"
+	if f := c.NeedFunc(m, "kgo.recBatch.appendRecord"); f != nil {
+		g := f.Graph()
+		info := f.Info()
+		maxTs := m.Field("kgo", "recBatch", "maxTimestampDelta")
+		firstTs := m.Field("kgo", "recBatch", "firstTimestamp")
+		nMax, nFirst := 0, 0
+		for _, st := range storesTo(f.Decl.Body, info, maxTs, false) {
+			nMax++
+			l, _ := g.LocOf(st.Node)
+			facts := g.FactsAt(l)
+			// monotone maximum: stored value v only under v > current
+			rhs := nosp(exprStr(st.RHS))
+			mono := factMatches(facts, func(ft Fact) bool {
+				be, ok := unparen(ft.Cond).(*ast.BinaryExpr)
+				if !ok || !ft.Val {
+					return false
+				}
+				x, y := nosp(exprStr(be.X)), nosp(exprStr(be.Y))
+				return be.Op == token.GTR && x == rhs && sameField(fieldOfSel(info, be.Y), maxTs) ||
+					be.Op == token.LSS && y == rhs && sameField(fieldOfSel(info, be.X), maxTs)
+			})
+			c.Check(mono && rhs == "nums.tsDelta", rule, f.Key+": maxTimestampDelta is a running maximum", st.Node.Pos(), m, "", "maxTimestampDelta is overwritten without the `delta > max` test: with user timestamps that are not non-decreasing the header's MaxTimestamp is not the largest record timestamp")
+		}
+		for _, st := range storesTo(f.Decl.Body, info, firstTs, false) {
+			nFirst++
+			l, _ := g.LocOf(st.Node)
+			first := factMatches(g.FactsAt(l), func(ft Fact) bool { return ft.Val && nosp(exprStr(ft.Cond)) == "len(b.records)==0" })
+			c.Check(first, rule, f.Key+": firstTimestamp only from the first record", st.Node.Pos(), m, "", "firstTimestamp is re-assigned for later records: the timestamp deltas already computed no longer match")
+		}
+		c.Check(nMax == 1 && nFirst == 1, rule, f.Key+"#stores", f.Pos(), m, "", "expected one store each of firstTimestamp and maxTimestampDelta in appendRecord")
+		// no other writers
+		for _, fv := range []*types.Var{maxTs, firstTs} {
+			for _, s := range StoreSites(m.FuncsIn("kgo"), fv) {
+				if s.Kind == "complit" {
+					continue
+				}
+				c.Check(s.Fn.Key == f.Key, rule, s.Fn.Key+": writes recBatch."+fv.Name(), s.Node.Pos(), m, "", "unexpected writer of recBatch."+fv.Name())
+			}
+		}
+	}
+	if f := c.NeedFunc(m, "kgo.recBatch.calculateRecordNumbers"); f != nil {
+		set := c18stmtSet(f.Decl.Body)
+		for _, frag := range []string{"tsDelta:=tsMillis-b.firstTimestamp", "offsetDelta:=int32(len(b.records))"} {
+			c.Check(set[frag], rule, f.Key+": "+frag, f.Pos(), m, "", "record numbers: `"+frag+"` missing or changed")
+		}
+		g := f.Graph()
+		okZero := false
+		ast.Inspect(f.Decl.Body, func(x ast.Node) bool {
+			if as, ok := x.(*ast.AssignStmt); ok && nosp(nodeStr(as)) == "tsDelta=0" {
+				l, _ := g.LocOf(as)
+				okZero = factMatches(g.FactsAt(l), func(ft Fact) bool { return ft.Val && nosp(exprStr(ft.Cond)) == "len(b.records)==0" })
+			}
+			return true
+		})
+		c.Check(okZero, rule, f.Key+": first record has delta 0", f.Pos(), m, "", "the first record's timestamp delta is not forced to 0")
+	}
+	if f := c.NeedFunc(m, "kgo.seqRecBatch.appendTo"); f != nil {
+		set := c18stmtSet(f.Decl.Body)
+		for _, frag := range []string{
+			"dst=kbin.AppendInt32(dst,int32(len(b.records)-1))",
+			"dst=kbin.AppendInt64(dst,b.firstTimestamp)",
+			"dst=kbin.AppendInt64(dst,b.firstTimestamp+b.maxTimestampDelta)",
+			"dst=kbin.AppendInt64(dst,producerID)",
+			"dst=kbin.AppendInt16(dst,producerEpoch)",
+			"dst=kbin.AppendInt32(dst,seq)",
+			"dst=kbin.AppendArrayLen(dst,len(b.records))",
+			"dst=pr.appendTo(dst,int32(i))",
+			"seq:=b.seq",
+		} {
+			c.Check(set[frag], rule, f.Key+": "+frag, f.Pos(), m, "", "batch header/records: `"+frag+"` missing or changed")
+		}
+		// seq is zeroed only for non-idempotent producers
+		g := f.Graph()
+		ast.Inspect(f.Decl.Body, func(x ast.Node) bool {
+			if as, ok := x.(*ast.AssignStmt); ok && nosp(nodeStr(as)) == "seq=0" {
+				l, _ := g.LocOf(as)
+				ok := factMatches(g.FactsAt(l), func(ft Fact) bool { return ft.Val && nosp(exprStr(ft.Cond)) == "producerID<0" })
+				c.Check(ok, rule, f.Key+": seq = 0 only without idempotence", as.Pos(), m, "", "the batch sequence is zeroed for an idempotent producer")
+			}
+			return true
+		})
+	}
+	if f := c.NeedFunc(m, "kgo.promisedRec.appendTo"); f != nil {
+		set := c18stmtSet(f.Decl.Body)
+		for _, frag := range []string{"length,tsDelta:=pr.lengthAndTimestampDelta()", "dst=kbin.AppendVarint(dst,length)", "dst=kbin.AppendVarlong(dst,tsDelta)", "dst=kbin.AppendVarint(dst,offsetDelta)"} {
+			c.Check(set[frag], rule, f.Key+": "+frag, f.Pos(), m, "", "record encoding: `"+frag+"` missing or changed")
+		}
+	}
+	// the numbers computed at buffering time are the ones stored on the record
+	if f := c.NeedFunc(m, "kgo.recBatch.tryBuffer"); f != nil {
+		set := c18stmtSet(f.Decl.Body)
+		c.Check(set["pr.setLengthAndTimestampDelta(nums.lengthField,nums.tsDelta,)"] || set["pr.setLengthAndTimestampDelta(nums.lengthField,nums.tsDelta)"], rule, f.Key+": stores the computed length and delta", f.Pos(), m, "", "the record's stored length/timestamp delta are not the computed ones")
+	}
+}
+
+func c18stmtSet(body *ast.BlockStmt) map[string]bool {
+	set := map[string]bool{}
+	ast.Inspect(body, func(x ast.Node) bool {
+		if st, ok := x.(ast.Stmt); ok {
+			switch st.(type) {
+			case *ast.AssignStmt, *ast.ExprStmt:
+				set[nows(nodeStr(st))] = true
+			}
+		}
+		return true
+	})
+	return set
 }
 
 var c18versions = []int{0, 1, 2, 3, 8, 9, 12, 13}
